@@ -82,7 +82,12 @@ class UpgradedAnnotation(metaclass=abc.ABCMeta):
         if self is other:
             return True
         if isinstance(other, UpgradedAnnotation):
-            return self.source_value() == other.source_value()
+            try:
+                return self.source_value() == other.source_value()
+            except Exception:
+                # an annotation that cannot be evaluated (a name only imported
+                # under TYPE_CHECKING, say) is equal to nothing but itself
+                return False
         return False
 
 
